@@ -25,7 +25,7 @@ from .variants import VARIANTS
 ALL_PROPS = [f'C{i:02d}' for i in range(1, 21)]
 
 
-MODERNISE_KINDS = ('suppress', 'else_nest', 'else_unnest', 'cmp_flip', 'tern_expand', 'aug_expand')
+MODERNISE_KINDS = ('suppress', 'else_nest', 'else_unnest', 'cmp_flip', 'tern_expand', 'aug_expand', 'lit_ctor', 'ret_local')
 _TERMINAL = None
 
 
@@ -70,6 +70,10 @@ def modernise_sites(tree, kind):
                 elif kind == 'aug_expand':
                     ok = isinstance(st, ast.AugAssign) and isinstance(st.target, (ast.Name, ast.Attribute)) and _pure(st.target) and \
                         isinstance(st.value, ast.Constant) and isinstance(st.value.value, (int, float)) and not isinstance(st.value.value, bool)
+                elif kind == 'lit_ctor':
+                    ok = not isinstance(st, (ast.FunctionDef, ast.AsyncFunctionDef, ast.ClassDef)) and _first_empty_literal(st) is not None
+                elif kind == 'ret_local':
+                    ok = isinstance(st, ast.Return) and st.value is not None and not isinstance(st.value, (ast.Name, ast.Constant))
                 if ok:
                     out.append((st.lineno, st.col_offset))
     return sorted(set(out))
@@ -86,6 +90,17 @@ def _own_exprs(st):
                 yield v
             elif isinstance(v, ast.withitem):
                 yield v.context_expr
+
+
+def _first_empty_literal(st):
+    import ast
+    for e in _own_exprs(st):
+        for n in ast.walk(e):
+            if isinstance(n, (ast.List, ast.Tuple)) and not n.elts and isinstance(n.ctx, ast.Load):
+                return n
+            if isinstance(n, ast.Dict) and not n.keys:
+                return n
+    return None
 
 
 def _first_flippable(st):
@@ -141,6 +156,14 @@ def modernise(tree, kind, lineno, col):
                         import copy
                         a, b = ast.Assign(targets=[st.targets[0]], value=ife.body), ast.Assign(targets=[copy.deepcopy(st.targets[0])], value=ife.orelse)
                     lst[i] = ast.If(test=ife.test, body=[a], orelse=[b])
+                elif kind == 'lit_ctor':
+                    n = _first_empty_literal(st)
+                    name = {'List': 'list', 'Tuple': 'tuple', 'Dict': 'dict'}[type(n).__name__]
+                    n.__class__ = ast.Call
+                    n.__dict__.clear()
+                    n.__dict__.update(dict(func=ast.Name(id=name, ctx=ast.Load()), args=[], keywords=[]))
+                elif kind == 'ret_local':
+                    lst[i:i + 1] = [ast.Assign(targets=[ast.Name(id='_rv', ctx=ast.Store())], value=st.value), ast.Return(value=ast.Name(id='_rv', ctx=ast.Load()))]
                 elif kind == 'aug_expand':
                     import copy
                     load = copy.deepcopy(st.target)
